@@ -14,3 +14,4 @@ pub mod c11;
 pub mod c12;
 pub mod c16;
 pub mod c17;
+pub mod c18;
